@@ -33,6 +33,7 @@ class AstModel(object):
     def __init__(self, index):
         self.module = index.need(ASTTYPES_MOD)
         self.classes = {}
+        self.rewrites = {}
         for name, node in self.module.classes.items():
             bases = []
             for b in node.bases:
@@ -138,10 +139,50 @@ class AstModel(object):
                 for k, v in inherited.items():
                     attrmap.setdefault(k, v)
                 continue
+            rw = self._projection_rewrite(st, names)
+            if rw is not None:
+                # the constructor replaces an argument by a part of it:
+                # recorded (reported by C03 / C16), the attribute map
+                # keeps the argument
+                self.rewrites.setdefault(owner, [])
+                if rw not in self.rewrites[owner]:
+                    self.rewrites[owner].append(rw)
+                continue
             raise AnalysisError(
                 '%s.__init__: unsupported statement %s' % (
                     owner, ast.unparse(st)))
         return params, attrmap
+
+    @staticmethod
+    def _projection_rewrite(st, names):
+        """`P = P.attr...` or `if <test on P>: P = P.attr...` for a
+        parameter P: (parameter, statement text), else None"""
+        def proj(a):
+            if not (isinstance(a, ast.Assign) and len(a.targets) == 1 and
+                    isinstance(a.targets[0], ast.Name) and
+                    a.targets[0].id in names):
+                return None
+            v = a.value
+            depth = 0
+            while isinstance(v, (ast.Attribute, ast.Subscript)):
+                v = v.value
+                depth += 1
+            if depth and isinstance(v, ast.Name) and \
+                    v.id == a.targets[0].id:
+                return a.targets[0].id
+            return None
+        if isinstance(st, (ast.If, ast.While)) and not st.orelse and \
+                len(st.body) == 1:
+            pn = proj(st.body[0])
+            if pn is not None and any(
+                    isinstance(n, ast.Name) and n.id == pn
+                    for n in ast.walk(st.test)):
+                return (pn, ' '.join(ast.unparse(st).split()))
+            return None
+        pn = proj(st)
+        if pn is not None:
+            return (pn, ast.unparse(st))
+        return None
 
     def _super_init(self, owner, call, names, base=None):
         """attribute map contributed by a call of the base constructor"""
